@@ -13,7 +13,7 @@ def run(ctx):
     ctx.validate("Trace_Pricers", "Trace_Pricers.cfg", tf)
     ctx.assumptions += [
         "documented box: the exponential models of harness/models.py (HEM x2, Merton x2, VG, CGMY y = 0.5 and 1.1, Black-Scholes), VG written as CGMY, a Black-Scholes model with a dividend yield, a Black-Scholes and a CGMY model whose r and d were assigned after construction; maturities 0.02 .. 2; uniform ladders of 21 (41) strikes inside the middle half of the COS truncation range, within [0.3, 3] spot; density / cdf clauses for maturities >= 0.1",
-        "plus seeded random parameters (1 draw of HEM / Merton / VG / CGMY / Black-Scholes quick, 8 thorough; spot 50..150, r <= 6%, d <= 4%, moderate jump parameters) for the price clauses only",
+        "plus seeded random parameters (1 draw of HEM / Merton / VG / CGMY / Black-Scholes quick, 8 thorough; spot 50..150, r <= 6%, d <= 4%, CGMY c <= 1.2 and y <= 1, pure-jump models from 6 months on; agreement within 1.2e-5 spot) for the price clauses only",
         "tolerances: 3e-5 spot on the shape relations (they carry the series-truncation error; largest deviation observed in the box 1.2e-6 spot), 6e-6 spot on the agreement between pricers (largest observed 1.2e-6), 3e-7 spot on relations that hold by construction (parity through the pricer's own forward, scalar = vector, price() dispatch)",
         "NOT decided: other models, parameters, maturities and strikes; the accuracy of the pricers themselves (no reference other than their mutual agreement and the Black-Scholes closed form)",
     ]
